@@ -85,3 +85,28 @@ func CancelBeforeAcquire(sc sim.Scenario, h *sim.History) (probs []Problem, deci
 	}
 	return probs, decided
 }
+
+// SlotsUsableAtEnd judges the tail of a CancelRaceScenario: after everything
+// was released, as many parking calls as the server has slots were sent one by
+// one; at the quiescent point after the last of them all of them are running.
+// It returns how many are, and the limit.
+func SlotsUsableAtEnd(sc sim.Scenario, h *sim.History) (running, limit int, ok bool) {
+	limit = sc.Cfg.Concurrency
+	// the probes are the last `limit` send steps
+	var probeSteps []int
+	for i := len(sc.Steps) - 1; i >= 0 && len(probeSteps) < limit; i-- {
+		if sc.Steps[i].Op == "send" {
+			probeSteps = append(probeSteps, i)
+		}
+	}
+	if len(probeSteps) < limit || limit == 0 {
+		return 0, limit, false
+	}
+	lastProbe := probeSteps[0]
+	for _, e := range h.Events {
+		if e.Kind == "quiesce" && e.Step == lastProbe && e.Snap != nil {
+			return len(e.Snap.Parked), limit, true
+		}
+	}
+	return 0, limit, false
+}
